@@ -296,6 +296,38 @@ Definition C09_ok (sender : Z) (payload : list Z) (nts_valid : bool) (replies : 
    then match replies with [(rcv, _)] => rcv =? sender | _ => false end
    else match replies with [] => true | _ => false end).
 
+(* ---- histories ----
+   "exactly one NTP reply ... for each UDP payload that is a well-formed client
+   request": the sentence quantifies over every datagram a listener receives, so
+   each exchange of a history is judged on its own.  What the listener handled
+   before (a valid NTS request, a malformed datagram, a burst from another
+   socket) never excuses a missing, doubled or misdirected reply to a later
+   well-formed request, and never licenses a reply to a later malformed one. *)
+Record ip_obs := {
+  o_src : Z;                       (* the sending socket *)
+  o_payload : list Z;              (* what it sent *)
+  o_nts : bool;                    (* the payload is a valid NTS request *)
+  o_replies : list (Z * list Z) }. (* NTP replies attributed to it: (receiving socket, bytes) *)
+
+Definition C09_obs_ok (o : ip_obs) : bool := C09_ok (o_src o) (o_payload o) (o_nts o) (o_replies o).
+
+Definition C09_hist_ok (h : list ip_obs) : bool := forallb C09_obs_ok h.
+
+(* several datagrams sent back to back from one socket and the replies that came
+   back to it, in order: the replies belong to the well-formed requests, first to
+   first; none may be missing and none may be left over *)
+Fixpoint C09_burst_ok (sender : Z) (ps : list (list Z * bool)) (reps : list (Z * list Z)) : bool :=
+  match ps with
+  | [] => match reps with [] => true | _ => false end
+  | (p, n) :: ps' =>
+      if wellformed_request p n then
+        match reps with
+        | r :: reps' => C09_ok sender p n [r] && C09_burst_ok sender ps' reps'
+        | [] => false
+        end
+      else C09_burst_ok sender ps' reps
+  end.
+
 (* over SCION the reply is "to the sender" when the header is the request's with
    IA, host address (type and bytes) and ports exchanged and the path reversed *)
 Definition list_eqb (a b : list Z) : bool :=
